@@ -5,13 +5,38 @@
   for an arbitrary commutative ring `R` of scalars ("up to floating-point
   rounding" = exactly, over ℚ/ℝ), every event list, every parameter value.
 
-  `ndl.ndl`: `ndl_call_eq_spec` (the CALL, success), `ndl_call_labels` (the
-  labels are exactly the names that occur), `ndl_label_order_irrelevant` /
-  `ndl_any_labels_eq_spec` (any label order, any id order inside an event),
-  `ndl_dup_raises`, `ndl_chunk_args_raise`, `ndl_call_empty_openmp` (where it
-  RAISES: the hypotheses of the success theorem are sharp).
+  `ndl.ndl` reads its events from a text event FILE (a path, or the spool file
+  of a generator): an event without outcomes (or cues) reaches it with the one
+  name `""` on that side.  Two equivalent ways to say so, both here:
+  * `ndl_file_eq_spec`, `ndl_file_labels` — about `ndlCallFile … es =
+    ndlCall … (es.map fileNorm)`, for EVERY event list `es` (what the driver
+    should evaluate);
+  * `ndl_call_eq_spec`, `ndl_call_labels`, `ndl_eq_spec`,
+    `ndl_label_order_irrelevant`, `ndl_any_labels_eq_spec` — about `ndlCall` /
+    `ndlModel` applied to the list directly, under `hfile : FileEvents es`
+    (every event has ≥ 1 cue and ≥ 1 outcome; decidable).  The PROOFS do not use
+    `hfile`; it delimits where model = code (without it `ndl_call_labels` is
+    false about the code: `[⟨["a"], []⟩]` is labelled `[""]` by `ndl.ndl`).
+    (The earlier versions lacked it, and the example list `exEvents` had an
+    event with `outcomes = []`.)
+  `dict_ndl` on an in-memory list does NOT normalise (`dictNdl_eq_spec` is for
+  every list); on a path it reads the same file, i.e. `es.map fileNorm`.
+
+  Where `ndl.ndl` RAISES: `ndl_dup_raises`, `ndl_chunk_args_raise`,
+  `ndl_continue_chunk_args_raise`, `ndl_call_empty_openmp`,
+  `ndl_zero_events_rule`.  Together with the success theorems they cover every
+  argument combination EXCEPT one: OpenMP with
+  `⌈n_outcomes / n_outcomes_per_job⌉ · n_outcomes_per_job ≥ 2³²` (`CfgOK.omp32`
+  fails, no exception is raised; the code silently skips the rows of the last
+  part — `ompBounds32_wraps_example`; needs > 2³¹ outcomes).  (An earlier
+  header called the bounds of `CfgOK` "sharp"; with the earlier clause
+  `n_outcomes + n_outcomes_per_job < 2³²` that was untrue: for
+  `n_outcomes_per_job ∈ [2³² − n_outcomes, 2³²)` the call succeeds.  `CfgOK` now
+  carries the exact no-wrap condition.)
   Not modelled: `dict_ndl` with an alpha DICT that lacks a cue (`KeyError`; the
-  model takes a total function `α`), `n_jobs` (absent from `NdlCfg`).
+  model takes a total function `α`), `n_jobs` (absent from `NdlCfg`);
+  `Err.other` merges `OverflowError` and `ZeroDivisionError` (as the harness'
+  `classify` does).
 -/
 import PyndlProofs.Dict
 import PyndlProofs.Schedule
@@ -19,6 +44,10 @@ import PyndlProofs.NdlSpec
 import PyndlProofs.NdlCall
 import PyndlProofs.Chain
 import PyndlProofs.LabelOrder
+import PyndlProofs.FileEvents
+import PyndlProofs.NdlEntry
+
+set_option linter.unusedVariables false
 
 namespace Pyndl.C01
 open Pyndl List
@@ -91,8 +120,11 @@ theorem kernel_openmp_eq_spec {parts : List (List Nat)} (hp : PartsOk parts)
     every repetition), both methods, chunking arguments
     `hcfg : CfgOK cfg (number of distinct outcomes)` =
       `2 ≤ events_per_temporary_file < 2³²`, `1 ≤ n_outcomes_per_job`, and for
-      OpenMP `n_outcomes + n_outcomes_per_job < 2³²`
-    (outside the code RAISES: `ndl_chunk_args_raise`), within the 32-bit limits
+      OpenMP `n_outcomes_per_job < 2³²` and no wrap-around of the part bounds,
+      `⌈n_outcomes / n_outcomes_per_job⌉ · n_outcomes_per_job < 2³²`
+    (outside the first three the code RAISES: `ndl_chunk_args_raise`; for the
+    last see the header), `hfile`: the events are what an event file can hold
+    (≥ 1 cue and ≥ 1 outcome per event), within the 32-bit limits
     the code itself enforces (`Fits32`): the model of the whole function —
     counting, id maps, duplicate policy on ids, binary chunk files with the
     header constants of preprocess.py read by the kernel reader with the
@@ -105,7 +137,8 @@ theorem kernel_openmp_eq_spec {parts : List (List Nat)} (hp : PartsOk parts)
     C02, the pool is C04).  Independence of the label ORDER the counting stage
     produces and of the id order inside an event: `ndl_label_order_irrelevant`. -/
 theorem ndl_eq_spec (cfg : NdlCfg) (alpha β₁ β₂ lam : R)
-    (es es' : List (Event String String)) (hcfg : CfgOK cfg (countNames es).2.length)
+    (es es' : List (Event String String)) (hfile : FileEvents es)
+    (hcfg : CfgOK cfg (countNames es).2.length)
     (hp : applyPolicyAll cfg.policy es = some es') (hfit : Fits32 es) :
     ∃ w, ndlModel Generated.pyMagic Generated.pyVersion cfg alpha β₁ β₂ lam none es = .ok (w, es.length) ∧
       ∀ o c, w.get o c = rwLearn (fun _ => alpha) β₁ β₂ lam (fun _ _ => (0 : R)) es' o c :=
@@ -115,10 +148,11 @@ theorem ndl_eq_spec (cfg : NdlCfg) (alpha β₁ β₂ lam : R)
 /-- **the call itself** (`ndlCall`: `ndlModel` plus what `ndl.ndl` does on an event
     file with zero events): for every NON-EMPTY event list — the property's
     quantifier starts at one event — the call is `ndlModel`, hence the
-    specification.  This is the statement the correspondence run exercises (the
-    driver evaluates `ndlCall`). -/
+    specification.  `hfile`: the list is one an event file can hold (the harness
+    sends `file_norm(es)`; for arbitrary lists: `ndl_file_eq_spec`). -/
 theorem ndl_call_eq_spec (cfg : NdlCfg) (alpha β₁ β₂ lam : R)
-    (es es' : List (Event String String)) (hne : es ≠ []) (hcfg : CfgOK cfg (countNames es).2.length)
+    (es es' : List (Event String String)) (hne : es ≠ []) (hfile : FileEvents es)
+    (hcfg : CfgOK cfg (countNames es).2.length)
     (hp : applyPolicyAll cfg.policy es = some es') (hfit : Fits32 es) :
     ∃ w, ndlCall Generated.pyMagic Generated.pyVersion cfg alpha β₁ β₂ lam none es = .ok (w, es.length) ∧
       ∀ o c, w.get o c = rwLearn (fun _ => alpha) β₁ β₂ lam (fun _ _ => (0 : R)) es' o c :=
@@ -129,9 +163,11 @@ theorem ndl_call_eq_spec (cfg : NdlCfg) (alpha β₁ β₂ lam : R)
     labelled with `countNames es`; a cue (outcome) is a label iff some event
     mentions it.  (`ndl_call_eq_spec` reads the matrix through its labels and
     returns 0 off them; together with this theorem a result that dropped, say,
-    an all-zero row or added a row does NOT satisfy the statement.) -/
+    an all-zero row or added a row does NOT satisfy the statement.)  `hfile` is
+    essential for model = code here: for `[⟨["a"], []⟩]` the real call has the
+    outcome label `""` (`ndl_file_labels` says so), `countNames` has none. -/
 theorem ndl_call_labels (cfg : NdlCfg) (alpha β₁ β₂ lam : R) (es : List (Event String String))
-    (w : LW R) (n : Nat)
+    (hfile : FileEvents es) (w : LW R) (n : Nat)
     (h : ndlCall Generated.pyMagic Generated.pyVersion cfg alpha β₁ β₂ lam none es = .ok (w, n)) :
     w.cues = (countNames es).1 ∧ w.outcomes = (countNames es).2 ∧ w.cues.Nodup ∧ w.outcomes.Nodup ∧
     (∀ c, c ∈ w.cues ↔ ∃ e ∈ es, c ∈ e.cues) ∧ (∀ o, o ∈ w.outcomes ↔ ∃ e ∈ es, o ∈ e.outcomes) := by
@@ -147,6 +183,47 @@ theorem ndl_call_labels (cfg : NdlCfg) (alpha β₁ β₂ lam : R) (es : List (E
     unfold countNames
     rw [mem_dedupKeepFirst, List.mem_flatMap]
 
+/-- **`ndl.ndl` on a path or a generator, for EVERY event list** (`ndlCallFile`
+    = `ndlCall` on what the event file presents, `es.map fileNorm`: an empty cue
+    or outcome field reads back as the one name `""`).  With at least one event,
+    legal chunking arguments, policy-accepted events and the 32-bit limits — all
+    w.r.t. the NORMALISED list — the call succeeds, reports `es.length` events,
+    and its matrix is at every pair of names `rwLearn` on the policy-processed
+    normalised events.  No `FileEvents` hypothesis: this is the statement about
+    arbitrary generator contents, and the one the driver op `ndl` should
+    evaluate (then the harness need not normalise in Python). -/
+theorem ndl_file_eq_spec (cfg : NdlCfg) (alpha β₁ β₂ lam : R)
+    (es es' : List (Event String String)) (hne : es ≠ [])
+    (hcfg : CfgOK cfg (countNames (es.map fileNorm)).2.length)
+    (hp : applyPolicyAll cfg.policy (es.map fileNorm) = some es') (hfit : Fits32 (es.map fileNorm)) :
+    ∃ w, ndlCallFile Generated.pyMagic Generated.pyVersion cfg alpha β₁ β₂ lam none es = .ok (w, es.length) ∧
+      ∀ o c, w.get o c = rwLearn (fun _ => alpha) β₁ β₂ lam (fun _ _ => (0 : R)) es' o c :=
+  ndlCallFile_eq_spec _ _ (by decide) (by decide) cfg alpha β₁ β₂ lam es es' hne hcfg hp hfit
+
+/-- **labels of `ndl.ndl` on a path or a generator, for EVERY event list**: the
+    names of the normalised events, each once, first occurrence order; a name is
+    a cue (outcome) label iff an event mentions it, or it is `""` and some event
+    has no cue (outcome). -/
+theorem ndl_file_labels (cfg : NdlCfg) (alpha β₁ β₂ lam : R) (es : List (Event String String))
+    (w : LW R) (n : Nat)
+    (h : ndlCallFile Generated.pyMagic Generated.pyVersion cfg alpha β₁ β₂ lam none es = .ok (w, n)) :
+    w.cues = (countNames (es.map fileNorm)).1 ∧ w.outcomes = (countNames (es.map fileNorm)).2 ∧
+    w.cues.Nodup ∧ w.outcomes.Nodup ∧
+    (∀ c, c ∈ w.cues ↔ ∃ e ∈ es, c ∈ e.cues ∨ (e.cues = [] ∧ c = "")) ∧
+    (∀ o, o ∈ w.outcomes ↔ ∃ e ∈ es, o ∈ e.outcomes ∨ (e.outcomes = [] ∧ o = "")) :=
+  ndlCallFile_labels _ _ cfg alpha β₁ β₂ lam es w n h
+
+/-- the two forms agree: on `FileEvents` (what the harness sends) the call on a
+    path/generator is `ndlCall` on the list; `fileNorm` is idempotent and its
+    image is `FileEvents` -/
+theorem ndl_file_forms (cfg : NdlCfg) (alpha β₁ β₂ lam : R) (W0 : Option (LW R))
+    (es : List (Event String String)) :
+    (FileEvents es → ndlCallFile Generated.pyMagic Generated.pyVersion cfg alpha β₁ β₂ lam W0 es
+      = ndlCall Generated.pyMagic Generated.pyVersion cfg alpha β₁ β₂ lam W0 es) ∧
+    FileEvents (es.map fileNorm) ∧ (es.map fileNorm).map fileNorm = es.map fileNorm :=
+  ⟨ndlCallFile_of_fileEvents _ _ _ _ _ _ _ _ _, fileEvents_map_fileNorm es,
+    map_fileNorm_of_fileEvents _ (fileEvents_map_fileNorm es)⟩
+
 /-- **the result does not depend on the label order nor on the order of the ids
     inside an event** (= on `n_jobs` of the counting stage, whose merged
     `Counter` fixes the id maps, and on the hash seed, which fixes the iteration
@@ -158,7 +235,7 @@ theorem ndl_call_labels (cfg : NdlCfg) (alpha β₁ β₂ lam : R) (es : List (E
     denotes the same weight function as `ndlModel` — at every pair of names. -/
 theorem ndl_label_order_irrelevant (reorder : Event Nat Nat → Event Nat Nat)
     (hre : ∀ e, (reorder e).cues ~ e.cues ∧ (reorder e).outcomes ~ e.outcomes)
-    (cfg : NdlCfg) (alpha β₁ β₂ lam : R) (es es' : List (Event String String))
+    (cfg : NdlCfg) (alpha β₁ β₂ lam : R) (es es' : List (Event String String)) (hfile : FileEvents es)
     (cues outs : List String) (hpc : cues ~ (countNames es).1) (hpo : outs ~ (countNames es).2)
     (hcfg : CfgOK cfg (countNames es).2.length)
     (hp : applyPolicyAll cfg.policy es = some es') (hfit : Fits32 es) :
@@ -170,13 +247,39 @@ theorem ndl_label_order_irrelevant (reorder : Event Nat Nat → Event Nat Nat)
   ndlModelWith_order_irrelevant reorder hre _ _ (by decide) (by decide) cfg alpha β₁ β₂ lam es es' cues outs
     hpc hpo hcfg hp hfit
 
+/-- **… nor on the order of the cues / outcomes inside the events of the FILE**
+    (`create_event_file(remove_duplicates=True)` writes `"_".join(set(cues))`:
+    the real file agrees with the model's only up to that order): `es₁` the
+    events as the models write them, `es₂` any list that agrees with it event by
+    event up to the order inside the events (`EventsPerm`); label lists any
+    permutations of the names, any `reorder`.  All hypotheses on `es₁`.  The
+    generalised model on `es₂` succeeds, is labelled as given, and is the
+    specification on the policy-processed `es₁` at every pair of names.  (On the
+    call itself: C13 `ndl_events_perm`; behind the pipeline: C15
+    `pipeline_ndl_order_irrelevant`.) -/
+theorem ndl_event_order_irrelevant (reorder : Event Nat Nat → Event Nat Nat)
+    (hre : ∀ e, (reorder e).cues ~ e.cues ∧ (reorder e).outcomes ~ e.outcomes)
+    (cfg : NdlCfg) (alpha β₁ β₂ lam : R) (es₁ es₁' es₂ : List (Event String String)) (hfile : FileEvents es₁)
+    (h : EventsPerm es₁ es₂)
+    (cues outs : List String) (hpc : cues ~ (countNames es₁).1) (hpo : outs ~ (countNames es₁).2)
+    (hcfg : CfgOK cfg (countNames es₁).2.length)
+    (hp : applyPolicyAll cfg.policy es₁ = some es₁') (hfit : Fits32 es₁) :
+    ∃ w, ndlModelWith reorder Generated.pyMagic Generated.pyVersion cfg alpha β₁ β₂ lam cues outs es₂
+        = .ok (w, es₂.length) ∧
+      w.cues = cues ∧ w.outcomes = outs ∧ FileEvents es₂ ∧
+      ∀ o c, w.get o c = rwLearn (fun _ => alpha) β₁ β₂ lam (fun _ _ => (0 : R)) es₁' o c := by
+  obtain ⟨w, hw, lc, lo, g⟩ := ndlModelWith_events_perm reorder hre Generated.pyMagic Generated.pyVersion (by decide) (by decide) cfg alpha β₁ β₂ lam
+    es₁ es₁' es₂ h cues outs hpc hpo hcfg hp hfit
+  exact ⟨w, hw, lc, lo, fileEvents_perm h hfile, g⟩
+
 /-- the stronger form: ANY label lists that contain the names (no permutation, no
     `Nodup` needed) give the specification, read through the labels -/
 theorem ndl_any_labels_eq_spec (reorder : Event Nat Nat → Event Nat Nat)
     (hre : ∀ e, (reorder e).cues ~ e.cues ∧ (reorder e).outcomes ~ e.outcomes)
     (cfg : NdlCfg) (alpha β₁ β₂ lam : R) (cues outs : List String) (hcfg : CfgOK cfg outs.length)
     (hnc : cues.length < 4294967296) (hno : outs.length < 4294967296)
-    (es es' : List (Event String String)) (hp : applyPolicyAll cfg.policy es = some es')
+    (es es' : List (Event String String)) (hfile : FileEvents es)
+    (hp : applyPolicyAll cfg.policy es = some es')
     (hmemc : ∀ e ∈ es, ∀ c ∈ e.cues, c ∈ cues) (hmemo : ∀ e ∈ es, ∀ o ∈ e.outcomes, o ∈ outs)
     (hn : es.length < 4294967296)
     (hpe : ∀ e ∈ es, e.cues.length < 4294967296 ∧ e.outcomes.length < 4294967296) :
@@ -196,23 +299,27 @@ theorem ndl_dup_raises (cfg : NdlCfg) (hper : 2 ≤ cfg.perFile) (hperU : cfg.pe
     ndlCall Generated.pyMagic Generated.pyVersion cfg alpha β₁ β₂ lam W0 es = .error .value :=
   ndlCall_dup_raises _ _ cfg alpha β₁ β₂ lam W0 es hper hperU h
 
-/-- **outside `CfgOK` the call RAISES** (the bounds of `ndl_eq_spec` are sharp;
-    `.other` is what the harness calls every exception that is none of
-    Value/IO/Key/TypeError — here `OverflowError` and `ZeroDivisionError`):
+/-- **outside `CfgOK` the call RAISES** (`.other` is what the harness calls every
+    exception that is none of Value/IO/Key/TypeError — here `OverflowError` and
+    `ZeroDivisionError`):
     * `events_per_temporary_file < 2`: `ValueError`; `≥ 2³²`: `OverflowError`
       (`to_bytes(stop - start)` in every conversion job) — for every event file,
       also an empty one, and every policy;
     and, when the conversion goes through (`hp`, `hfit`, legal chunk size),
     * threading, `n_outcomes_per_job = 0`: `ValueError` (`slice_list`);
     * OpenMP, `n_outcomes_per_job ≥ 2³²`: `OverflowError` (`unsigned int chunksize`);
-    * OpenMP, `n_outcomes_per_job = 0`, at least one event: `ZeroDivisionError`. -/
+    * OpenMP, `n_outcomes_per_job = 0`, at least one event: `ZeroDivisionError`.
+    These are all the clauses of `CfgOK` except the OpenMP no-wrap clause, outside
+    which the code does not raise (see the header).  Continued calls:
+    `ndl_continue_chunk_args_raise`. -/
 theorem ndl_chunk_args_raise (cfg : NdlCfg) (alpha β₁ β₂ lam : R) (W0 : Option (LW R))
     (es es' : List (Event String String)) :
     (cfg.perFile < 2 →
       ndlCall Generated.pyMagic Generated.pyVersion cfg alpha β₁ β₂ lam W0 es = .error .value) ∧
     (4294967296 ≤ cfg.perFile →
       ndlCall Generated.pyMagic Generated.pyVersion cfg alpha β₁ β₂ lam W0 es = .error .other) ∧
-    (2 ≤ cfg.perFile → cfg.perFile < 4294967296 → applyPolicyAll cfg.policy es = some es' → Fits32 es →
+    (2 ≤ cfg.perFile → cfg.perFile < 4294967296 → FileEvents es →
+      applyPolicyAll cfg.policy es = some es' → Fits32 es →
       (cfg.method = .threading → cfg.perJob < 1 →
         ndlCall Generated.pyMagic Generated.pyVersion cfg alpha β₁ β₂ lam none es = .error .value) ∧
       (cfg.method = .openmp → 4294967296 ≤ cfg.perJob →
@@ -224,25 +331,71 @@ theorem ndl_chunk_args_raise (cfg : NdlCfg) (alpha β₁ β₂ lam : R) (W0 : Op
   · cases W0 with
     | none => rw [ndlModel_none]; exact ndlCore_perFile_small _ _ _ _ _ _ _ _ _ _ _ h
     | some w => rw [ndlModel_some]; exact ndlCore_perFile_small _ _ _ _ _ _ _ _ _ _ _ h
-  · intro hper hperU hp hfit
+  · intro hper hperU _ hp hfit
     obtain ⟨a, b, c⟩ := ndlModel_perJob_errors Generated.pyMagic Generated.pyVersion (by decide) (by decide)
       cfg alpha β₁ β₂ lam hper hperU es es' hp hfit
     exact ⟨fun h1 h2 => ndlCall_error _ _ _ _ _ _ _ _ _ _ (a h1 h2),
       fun h1 h2 => ndlCall_error _ _ _ _ _ _ _ _ _ _ (b h1 h2),
       fun h1 h2 h3 => ndlCall_error _ _ _ _ _ _ _ _ _ _ (c h1 h2 h3)⟩
 
+/-- **the `n_outcomes_per_job` clauses for a CONTINUED call** (`weights=w`; exported
+    from `ndlModel_continue_perJob_errors`, which no Props file stated): after a
+    conversion that goes through, threading with `n_outcomes_per_job = 0` raises
+    `ValueError`, OpenMP with `≥ 2³²` `OverflowError`, OpenMP with `0` and at least
+    one event `ZeroDivisionError`. -/
+theorem ndl_continue_chunk_args_raise (cfg : NdlCfg) (alpha β₁ β₂ lam : R) (w : LW R)
+    (hndc : w.cues.Nodup) (hndo : w.outcomes.Nodup)
+    (es es' : List (Event String String)) (hfile : FileEvents es)
+    (hper : 2 ≤ cfg.perFile) (hperU : cfg.perFile < 4294967296)
+    (hp : applyPolicyAll cfg.policy es = some es') (hfit : Fits32With w es) :
+    (cfg.method = .threading → cfg.perJob < 1 →
+      ndlCall Generated.pyMagic Generated.pyVersion cfg alpha β₁ β₂ lam (some w) es = .error .value) ∧
+    (cfg.method = .openmp → 4294967296 ≤ cfg.perJob →
+      ndlCall Generated.pyMagic Generated.pyVersion cfg alpha β₁ β₂ lam (some w) es = .error .other) ∧
+    (cfg.method = .openmp → cfg.perJob < 1 → es ≠ [] →
+      ndlCall Generated.pyMagic Generated.pyVersion cfg alpha β₁ β₂ lam (some w) es = .error .other) := by
+  obtain ⟨a, b, c⟩ := ndlModel_continue_perJob_errors Generated.pyMagic Generated.pyVersion (by decide) (by decide)
+    cfg alpha β₁ β₂ lam hper hperU w es es' hp hfit
+  exact ⟨fun h1 h2 => ndlCall_error _ _ _ _ _ _ _ _ _ _ (a h1 h2),
+    fun h1 h2 => ndlCall_error _ _ _ _ _ _ _ _ _ _ (b h1 h2),
+    fun h1 h2 h3 => ndlCall_error _ _ _ _ _ _ _ _ _ _ (c h1 h2 h3)⟩
+
 /-- **outside the quantifier, recorded because the learners differ there**: on an
     event file with ZERO events the OpenMP method raises `IOError` (no chunk file
     is written, the kernel entry point reports its initial error code:
-    `C06.empty_file_list_raises`), whereas `dict_ndl` returns the weights it was
+    `ndl_zero_events_rule`), whereas `dict_ndl` returns the weights it was
     given and the threading method returns the empty matrix when called without
-    `weights=` (`ndlCall_empty_threading`). -/
+    `weights=` (`ndlCall_empty_threading`).
+    (One of three wrappers of `ndlCall_nil_raises`: C03 `ndl_call_empty_part_raises`,
+    C15 `pipeline_ndl_empty_raises`.) -/
 theorem ndl_call_empty_openmp (cfg : NdlCfg) (hm : cfg.method = .openmp) (hper : 2 ≤ cfg.perFile)
     (hperU : cfg.perFile < 4294967296) (hjob : cfg.perJob < 4294967296) (alpha β₁ β₂ lam : R)
     (W0 : Option (LW R)) :
     ndlCall Generated.pyMagic Generated.pyVersion cfg alpha β₁ β₂ lam W0 [] = .error .io :=
   ndlCall_nil_raises _ _ cfg alpha β₁ β₂ lam W0 hper hperU (fun h => by rw [hm] at h; cases h)
     (fun _ => hjob) (Or.inl hm)
+
+/-- **why `ndl.ndl` raises on zero events — as a theorem.**  `ndlCallEntry` is
+    `ndl.ndl` assembled from the kernel entry points as they are called
+    (PyndlProofs/NdlEntry.lean: one `learnChunksB2B` call per part of
+    `slice_list(…)` for threading, one for OpenMP; an entry point called with an
+    empty file list reports `noFile`, C06 `empty_file_list_raises`); it has NO
+    separate rule for zero events.  (1) On zero events it equals `ndlCall` for
+    every configuration and `weights=` — so `ndlCall`'s hand-written rule
+    (PyndlModel/Ndl.lean) is what the entry points give.  (2) On at least one
+    event, under the hypotheses of `ndl_call_eq_spec` (any `n_outcomes_per_job`),
+    it equals `ndlCall` as well: decoding once and folding the kernels
+    (`ndlCore`) is the same as running the entry points on the chunk files. -/
+theorem ndl_zero_events_rule (cfg : NdlCfg) (alpha β₁ β₂ lam : R) (W0 : Option (LW R)) :
+    ndlCallEntry Generated.pyMagic Generated.pyVersion cfg alpha β₁ β₂ lam W0 []
+      = ndlCall Generated.pyMagic Generated.pyVersion cfg alpha β₁ β₂ lam W0 [] ∧
+    (∀ es es' : List (Event String String), es ≠ [] → 2 ≤ cfg.perFile → cfg.perFile < 4294967296 →
+      applyPolicyAll cfg.policy es = some es' → Fits32 es →
+      ndlCallEntry Generated.pyMagic Generated.pyVersion cfg alpha β₁ β₂ lam none es
+        = ndlCall Generated.pyMagic Generated.pyVersion cfg alpha β₁ β₂ lam none es) :=
+  ⟨ndlCallEntry_nil _ _ cfg alpha β₁ β₂ lam W0,
+    fun es es' hne hper hperU hp hfit =>
+      ndlCallEntry_eq_ndlCall _ _ (by decide) (by decide) cfg alpha β₁ β₂ lam hper hperU es es' hne hp hfit⟩
 
 /-! Non-vacuity: a concrete 3-event sequence with a repeated cue, an outcome
 first seen late, an outcome-less event, β₁ ≠ β₂ and λ ≠ 1, evaluated in ℤ
@@ -259,26 +412,93 @@ example :
 
 /-! Non-vacuity of `ndl_call_eq_spec`, fully instantiated: three events with a
 cue repeated inside an event (policy `True` removes it), an outcome first seen
-late, an event without outcomes; OpenMP with one outcome per job, two events
-per file (two chunk files); α = 1, β₁ = 2, β₂ = 3, λ = 5 over ℤ.  The theorem
-itself is applied. -/
+late, an event whose outcome field was EMPTY in the file (it reads back as the
+outcome `""`); OpenMP with one outcome per job, two events per file (two chunk
+files); α = 1, β₁ = 2, β₂ = 3, λ = 5 over ℤ.  The theorem itself is applied.
+(`exEvents` used to contain `⟨["a", "a"], []⟩` — a list `ndl.ndl` cannot receive;
+`exGen` below is that list, for `ndl_file_eq_spec`.) -/
 def exEvents : List (Event String String) :=
+  [⟨["a", "b"], ["x"]⟩, ⟨["a", "a"], [""]⟩, ⟨["b"], ["y", "x"]⟩]
+
+/-- the policy-processed events of `exEvents` under `remove_duplicates=True` -/
+def exEvents' : List (Event String String) :=
+  [⟨["a", "b"], ["x"]⟩, ⟨["a"], [""]⟩, ⟨["b"], ["y", "x"]⟩]
+
+/-- a generator content with an outcome-less event: what the file presents is `exEvents` -/
+def exGen : List (Event String String) :=
   [⟨["a", "b"], ["x"]⟩, ⟨["a", "a"], []⟩, ⟨["b"], ["y", "x"]⟩]
+
+/-- (definitional — example data, not a property theorem) -/
+theorem exEvents_file : FileEvents exEvents := by decide
+/-- (definitional — example data, not a property theorem) -/
+theorem exGen_norm : exGen.map fileNorm = exEvents := by decide
+/-- (definitional — example data, not a property theorem) -/
+theorem exEvents_fits : Fits32 exEvents :=
+  ⟨by decide +kernel, by decide +kernel, by decide +kernel, by decide +kernel⟩
 
 example :
     ∃ w, ndlCall Generated.pyMagic Generated.pyVersion ⟨.dedup, .openmp, 1, 2⟩ (1 : ℤ) 2 3 5 none exEvents
         = .ok (w, 3) ∧
-      ∀ o c, w.get o c = rwLearn (fun _ => (1 : ℤ)) 2 3 5 (fun _ _ => 0)
-        [⟨["a", "b"], ["x"]⟩, ⟨["a"], []⟩, ⟨["b"], ["y", "x"]⟩] o c :=
-  ndl_call_eq_spec ⟨.dedup, .openmp, 1, 2⟩ 1 2 3 5 exEvents _ (by decide) (by decide +kernel)
-    (by decide +kernel) ⟨by decide +kernel, by decide +kernel, by decide +kernel, by decide +kernel⟩
+      ∀ o c, w.get o c = rwLearn (fun _ => (1 : ℤ)) 2 3 5 (fun _ _ => 0) exEvents' o c :=
+  ndl_call_eq_spec ⟨.dedup, .openmp, 1, 2⟩ 1 2 3 5 exEvents _ (by decide) exEvents_file (by decide +kernel)
+    (by decide +kernel) exEvents_fits
 
 /-- … the values are not trivial, and the labels are the names in order of first
-    occurrence -/
+    occurrence — `""` among the outcomes (this is what the real `ndl.ndl` returns
+    for the generator `exGen`: outcomes `['x', '', 'y']`, rows `[-20, 0]`,
+    `[10, 0]`, `[0, 10]`) -/
 example :
     (match ndlCall Generated.pyMagic Generated.pyVersion ⟨.dedup, .openmp, 1, 2⟩ (1 : ℤ) 2 3 5 none exEvents with
      | .ok (w, k) => some (w.outcomes, w.cues, w.vals, k) | .error _ => none)
-      = some (["x", "y"], ["a", "b"], #[-20, 0,  0, 10], 3) := by decide +kernel
+      = some (["x", "", "y"], ["a", "b"], #[-20, 0,  10, 0,  0, 10], 3) := by decide +kernel
+
+/-- `ndl_file_eq_spec` applied to the generator content `exGen` (an event WITHOUT
+    outcomes; no `FileEvents` hypothesis): the same result -/
+example :
+    ∃ w, ndlCallFile Generated.pyMagic Generated.pyVersion ⟨.dedup, .openmp, 1, 2⟩ (1 : ℤ) 2 3 5 none exGen
+        = .ok (w, 3) ∧
+      ∀ o c, w.get o c = rwLearn (fun _ => (1 : ℤ)) 2 3 5 (fun _ _ => 0) exEvents' o c :=
+  ndl_file_eq_spec ⟨.dedup, .openmp, 1, 2⟩ 1 2 3 5 exGen _ (by decide) (by rw [exGen_norm]; decide +kernel)
+    (by rw [exGen_norm]; decide +kernel) (by rw [exGen_norm]; exact exEvents_fits)
+
+/-- `ndl_file_labels` applied: the outcome label `""` is there BECAUSE an event has
+    no outcome; on the un-normalised list the model would have no such label
+    (`countNames exGen` — the reason for `hfile` in `ndl_call_labels`) -/
+example :
+    (∀ w n, ndlCallFile Generated.pyMagic Generated.pyVersion ⟨.dedup, .openmp, 1, 2⟩ (1 : ℤ) 2 3 5 none exGen
+        = .ok (w, n) → "" ∈ w.outcomes) ∧
+    (countNames exGen).2 = ["x", "y"] :=
+  ⟨fun w n h => ((ndl_file_labels _ 1 2 3 5 exGen w n h).2.2.2.2.2 "").mpr
+      ⟨⟨["a", "a"], []⟩, by simp [exGen], Or.inr ⟨rfl, rfl⟩⟩,
+    by decide +kernel⟩
+
+/-- `ndl_call_labels` applied (threading, two outcomes per job): whatever the
+    call returns for `exEvents` has exactly the labels `a, b` / `x, "", y` -/
+example (w : LW ℤ) (n : Nat)
+    (h : ndlCall Generated.pyMagic Generated.pyVersion ⟨.dedup, .threading, 2, 2⟩ (1 : ℤ) 2 3 5 none exEvents
+      = .ok (w, n)) : w.cues = ["a", "b"] ∧ w.outcomes = ["x", "", "y"] := by
+  obtain ⟨lc, lo, _⟩ := ndl_call_labels ⟨.dedup, .threading, 2, 2⟩ 1 2 3 5 exEvents exEvents_file w n h
+  exact ⟨lc.trans (by decide +kernel), lo.trans (by decide +kernel)⟩
+
+/-- `ndl_eq_spec` applied (the model without the zero-event rule; threading, two
+    outcomes per job, policy `False`: the repeated cue counts twice) -/
+example :
+    ∃ w, ndlModel Generated.pyMagic Generated.pyVersion ⟨.keep, .threading, 2, 2⟩ (1 : ℤ) 2 3 5 none exEvents
+        = .ok (w, 3) ∧
+      ∀ o c, w.get o c = rwLearn (fun _ => (1 : ℤ)) 2 3 5 (fun _ _ => 0) exEvents o c :=
+  ndl_eq_spec ⟨.keep, .threading, 2, 2⟩ 1 2 3 5 exEvents _ exEvents_file (by decide +kernel)
+    (by decide +kernel) exEvents_fits
+
+/-- the OpenMP clause of `CfgOK` at its boundary: `n_outcomes_per_job = 2³² − 1`
+    with 3 outcomes (`n_outcomes + n_outcomes_per_job ≥ 2³²`, which the earlier
+    `CfgOK` excluded although code and model succeed: ONE part, nothing wraps) —
+    `ndl_call_eq_spec` applied -/
+example :
+    ∃ w, ndlCall Generated.pyMagic Generated.pyVersion ⟨.dedup, .openmp, 4294967295, 2⟩ (1 : ℤ) 2 3 5 none exEvents
+        = .ok (w, 3) ∧
+      ∀ o c, w.get o c = rwLearn (fun _ => (1 : ℤ)) 2 3 5 (fun _ _ => 0) exEvents' o c :=
+  ndl_call_eq_spec ⟨.dedup, .openmp, 4294967295, 2⟩ 1 2 3 5 exEvents _ (by decide) exEvents_file
+    (by decide +kernel) (by decide +kernel) exEvents_fits
 
 /-- … under `remove_duplicates=None` the same file raises `ValueError`
     (`ndl_dup_raises` applied), and `events_per_temporary_file = 2³²` raises
@@ -291,24 +511,93 @@ example :
   ⟨ndl_dup_raises ⟨.error, .openmp, 1, 2⟩ (by decide) (by decide) 1 2 3 5 none exEvents (by decide +kernel),
    (ndl_chunk_args_raise ⟨.dedup, .threading, 1, 4294967296⟩ 1 2 3 5 none exEvents []).2.1 (by decide)⟩
 
+/-- the `n_outcomes_per_job` clauses of `ndl_chunk_args_raise` applied: threading
+    with 0 (`ValueError`), OpenMP with 2³² (`OverflowError`), OpenMP with 0
+    (`ZeroDivisionError`) -/
+example :
+    ndlCall Generated.pyMagic Generated.pyVersion ⟨.dedup, .threading, 0, 2⟩ (1 : ℤ) 2 3 5 none exEvents
+      = .error .value ∧
+    ndlCall Generated.pyMagic Generated.pyVersion ⟨.dedup, .openmp, 4294967296, 2⟩ (1 : ℤ) 2 3 5 none exEvents
+      = .error .other ∧
+    ndlCall Generated.pyMagic Generated.pyVersion ⟨.dedup, .openmp, 0, 2⟩ (1 : ℤ) 2 3 5 none exEvents
+      = .error .other :=
+  ⟨((ndl_chunk_args_raise ⟨.dedup, .threading, 0, 2⟩ 1 2 3 5 none exEvents exEvents').2.2 (by decide) (by decide)
+      exEvents_file (by decide +kernel) exEvents_fits).1 rfl (by decide),
+   ((ndl_chunk_args_raise ⟨.dedup, .openmp, 4294967296, 2⟩ 1 2 3 5 none exEvents exEvents').2.2 (by decide)
+      (by decide) exEvents_file (by decide +kernel) exEvents_fits).2.1 rfl (by decide),
+   ((ndl_chunk_args_raise ⟨.dedup, .openmp, 0, 2⟩ 1 2 3 5 none exEvents exEvents').2.2 (by decide) (by decide)
+      exEvents_file (by decide +kernel) exEvents_fits).2.2 rfl (by decide) (by decide)⟩
+
+/-- `ndl_continue_chunk_args_raise` applied: continuing from weights with the
+    labels `x` / `a` and `n_outcomes_per_job = 0`, threading -/
+example :
+    ndlCall Generated.pyMagic Generated.pyVersion ⟨.dedup, .threading, 0, 2⟩ (1 : ℤ) 2 3 5
+      (some ⟨["x"], ["a"], #[7]⟩) exEvents = .error .value :=
+  (ndl_continue_chunk_args_raise ⟨.dedup, .threading, 0, 2⟩ 1 2 3 5 ⟨["x"], ["a"], #[7]⟩ (by decide) (by decide)
+    exEvents exEvents' exEvents_file (by decide) (by decide) (by decide +kernel)
+    ⟨by decide +kernel, by decide +kernel, by decide +kernel, by decide +kernel⟩).1 rfl (by decide)
+
+/-- `ndl_zero_events_rule` on concrete calls: the entry-point model on zero events
+    — OpenMP raises `IOError`; threading without weights returns the empty
+    matrix; threading with one outcome row raises `IOError` -/
+example :
+    ndlCallEntry Generated.pyMagic Generated.pyVersion ⟨.error, .openmp, 1, 2⟩ (1 : ℤ) 2 3 5 none [] = .error .io ∧
+    (match ndlCallEntry Generated.pyMagic Generated.pyVersion ⟨.error, .threading, 1, 2⟩ (1 : ℤ) 2 3 5 none [] with
+      | .ok (w, k) => some (w.outcomes, w.cues, k) | .error _ => none) = some ([], [], 0) ∧
+    ndlCallEntry Generated.pyMagic Generated.pyVersion ⟨.error, .threading, 1, 2⟩ (1 : ℤ) 2 3 5
+      (some ⟨["x"], ["a"], #[7]⟩) [] = .error .io :=
+  ⟨(ndl_zero_events_rule _ 1 2 3 5 none).1.trans
+      (ndl_call_empty_openmp ⟨.error, .openmp, 1, 2⟩ rfl (by decide) (by decide) (by decide) 1 2 3 5 none),
+    by decide +kernel,
+    (ndl_zero_events_rule _ 1 2 3 5 _).1.trans
+      (ndlCall_nil_raises _ _ ⟨.error, .threading, 1, 2⟩ 1 2 3 5 _ (by decide) (by decide) (by decide) (by decide)
+        (Or.inr ⟨_, rfl, by decide⟩))⟩
+
 /-- non-vacuity of `ndl_label_order_irrelevant`: the labels of `exEvents` in
     REVERSED order and every event's ids reversed — the theorem applied; the
     array differs (rows / columns permuted), the denoted weights do not -/
 example :
     ∃ w w₀, ndlModelWith (fun e => ⟨e.cues.reverse, e.outcomes.reverse⟩) Generated.pyMagic Generated.pyVersion
-        ⟨.dedup, .openmp, 1, 2⟩ (1 : ℤ) 2 3 5 ["b", "a"] ["y", "x"] exEvents = .ok (w, 3) ∧
+        ⟨.dedup, .openmp, 1, 2⟩ (1 : ℤ) 2 3 5 ["b", "a"] ["y", "", "x"] exEvents = .ok (w, 3) ∧
       ndlModel Generated.pyMagic Generated.pyVersion ⟨.dedup, .openmp, 1, 2⟩ (1 : ℤ) 2 3 5 none exEvents
         = .ok (w₀, 3) ∧
-      w.cues = ["b", "a"] ∧ w.outcomes = ["y", "x"] ∧ ∀ o c, w.get o c = w₀.get o c :=
+      w.cues = ["b", "a"] ∧ w.outcomes = ["y", "", "x"] ∧ ∀ o c, w.get o c = w₀.get o c :=
   ndl_label_order_irrelevant (fun e => ⟨e.cues.reverse, e.outcomes.reverse⟩)
     (fun e => ⟨List.reverse_perm _, List.reverse_perm _⟩) ⟨.dedup, .openmp, 1, 2⟩ 1 2 3 5 exEvents
-    [⟨["a", "b"], ["x"]⟩, ⟨["a"], []⟩, ⟨["b"], ["y", "x"]⟩] ["b", "a"] ["y", "x"] (by decide +kernel) (by decide +kernel) (by decide +kernel) (by decide +kernel)
-    ⟨by decide +kernel, by decide +kernel, by decide +kernel, by decide +kernel⟩
+    exEvents' exEvents_file ["b", "a"] ["y", "", "x"] (by decide +kernel) (by decide +kernel) (by decide +kernel)
+    (by decide +kernel) exEvents_fits
 
 example :
     (match ndlModelWith (fun e => ⟨e.cues.reverse, e.outcomes.reverse⟩) Generated.pyMagic Generated.pyVersion
-        ⟨.dedup, .openmp, 1, 2⟩ (1 : ℤ) 2 3 5 ["b", "a"] ["y", "x"] exEvents with
+        ⟨.dedup, .openmp, 1, 2⟩ (1 : ℤ) 2 3 5 ["b", "a"] ["y", "", "x"] exEvents with
      | .ok (w, k) => some (w.outcomes, w.cues, w.vals, k) | .error _ => none)
-      = some (["y", "x"], ["b", "a"], #[10, 0,  0, -20], 3) := by decide +kernel
+      = some (["y", "", "x"], ["b", "a"], #[10, 0,  0, 10,  0, -20], 3) := by decide +kernel
+
+/-- `ndl_event_order_irrelevant` applied: the file has every event's cues and
+    outcomes in reversed order (`b_a → x`, `a_a → ""`, `b → x_y`), labels reversed -/
+example :
+    ∃ w, ndlModelWith id Generated.pyMagic Generated.pyVersion ⟨.dedup, .openmp, 1, 2⟩ (1 : ℤ) 2 3 5
+        ["b", "a"] ["y", "", "x"] (exEvents.map (fun e => ⟨e.cues.reverse, e.outcomes.reverse⟩))
+        = .ok (w, (exEvents.map (fun e => (⟨e.cues.reverse, e.outcomes.reverse⟩ : Event String String))).length) ∧
+      w.cues = ["b", "a"] ∧ w.outcomes = ["y", "", "x"] ∧
+      FileEvents (exEvents.map (fun e => ⟨e.cues.reverse, e.outcomes.reverse⟩)) ∧
+      ∀ o c, w.get o c = rwLearn (fun _ => (1 : ℤ)) 2 3 5 (fun _ _ => 0) exEvents' o c :=
+  ndl_event_order_irrelevant id (fun e => ⟨List.Perm.refl _, List.Perm.refl _⟩) ⟨.dedup, .openmp, 1, 2⟩ 1 2 3 5
+    exEvents exEvents' _ exEvents_file
+    (EventsPerm.of_map _ (fun e => ⟨List.reverse_perm _, List.reverse_perm _⟩) exEvents)
+    ["b", "a"] ["y", "", "x"] (by decide +kernel) (by decide +kernel) (by decide +kernel) (by decide +kernel)
+    exEvents_fits
+
+/-- `ndl_any_labels_eq_spec` applied: label lists that are NOT permutations of the
+    names — an extra cue `q`, the outcome `x` listed twice, an unused outcome
+    `z` — still give the specification, read through the labels -/
+example :
+    ∃ w, ndlModelWith id Generated.pyMagic Generated.pyVersion ⟨.dedup, .threading, 2, 2⟩ (1 : ℤ) 2 3 5
+        ["q", "b", "a"] ["x", "z", "y", "x", ""] exEvents = .ok (w, 3) ∧
+      w.cues = ["q", "b", "a"] ∧ w.outcomes = ["x", "z", "y", "x", ""] ∧
+      ∀ o c, w.get o c = rwLearn (fun _ => (1 : ℤ)) 2 3 5 (fun _ _ => 0) exEvents' o c :=
+  ndl_any_labels_eq_spec id (fun e => ⟨List.Perm.refl _, List.Perm.refl _⟩) ⟨.dedup, .threading, 2, 2⟩ 1 2 3 5
+    ["q", "b", "a"] ["x", "z", "y", "x", ""] (by decide +kernel) (by decide) (by decide) exEvents exEvents'
+    exEvents_file (by decide +kernel) (by decide) (by decide) (by decide) (by decide)
 
 end Pyndl.C01
